@@ -733,6 +733,7 @@ func (s *Session) thoroughBitPrecise(prop string, keys []string, lemmas []string
 				}
 				o := lemmaObl("bit-precise-"+l, key, in.Name, prop, ctx, assume, goal, "QF_FPBV")
 				o.Note = "thorough tier: bit-precise confirmation of the standard-model lemma"
+				o.Soft = true
 				out = append(out, o)
 			}
 		}
